@@ -237,3 +237,48 @@ Proof.
     + destruct (env_reset sc c) as [[c1 a] b]. cbn [mon_run].
       destruct (mon_op allow s MReset) as [s1 out]. cbn [fst]. rewrite IH. reflexivity.
 Qed.
+
+(* ---------- load_results over several files: sorted by the absolute end instants, nothing lost or invented ---------- *)
+From Coq Require Import Permutation Sorted.
+Section LoadResultsProofs.
+Context {A : Type}.
+Definition le_t (a b : Z * A) : Prop := fst a <= fst b.
+
+Lemma insert_perm (x : Z * A) l : Permutation (insert_by_t x l) (x :: l).
+Proof.
+  induction l as [|y r IH]; cbn; [reflexivity|]. destruct (fst x <=? fst y); [reflexivity|].
+  rewrite IH. apply perm_swap.
+Qed.
+
+Lemma sort_perm (l : list (Z * A)) : Permutation (sort_by_t l) l.
+Proof. induction l as [|x l IH]; cbn; [reflexivity|]. rewrite insert_perm. now constructor. Qed.
+
+Lemma insert_sorted (x : Z * A) l : StronglySorted le_t l -> StronglySorted le_t (insert_by_t x l).
+Proof.
+  induction 1 as [|y r Hs IH Hall]; cbn; [repeat constructor|].
+  destruct (fst x <=? fst y) eqn:E.
+  - constructor; [now constructor|]. constructor; [unfold le_t; lia|].
+    eapply Forall_impl; [|exact Hall]. intros z Hz. unfold le_t in *. lia.
+  - constructor; [exact IH|]. rewrite Forall_forall. intros z Hz.
+    apply (Permutation_in _ (insert_perm x r)) in Hz. destruct Hz as [<-|Hz]; [unfold le_t; lia|].
+    rewrite Forall_forall in Hall. now apply Hall.
+Qed.
+
+Lemma sort_sorted (l : list (Z * A)) : StronglySorted le_t (sort_by_t l).
+Proof. induction l as [|x l IH]; cbn; [constructor|]. now apply insert_sorted. Qed.
+
+(* the model reader lists exactly the rows of all files (nothing lost, nothing invented), ordered by t_start_i + t *)
+Lemma load_results_merge (files : list (@mfile A)) :
+  Permutation (sort_by_t (flat_map absolute_rows files)) (flat_map absolute_rows files) /\
+  StronglySorted le_t (sort_by_t (flat_map absolute_rows files)).
+Proof. split; [apply sort_perm|apply sort_sorted]. Qed.
+
+(* a list that is already in strictly increasing order of time is left as it is: when the end instants are distinct, the
+   result is THE chronological list *)
+Lemma sort_sorted_id (l : list (Z * A)) : StronglySorted (fun a b => fst a < fst b) l -> sort_by_t l = l.
+Proof.
+  induction 1 as [|x r Hs IH Hall]; [reflexivity|].
+  change (sort_by_t (x :: r)) with (insert_by_t x (sort_by_t r)). rewrite IH. destruct r as [|y r']; [reflexivity|].
+  cbn [insert_by_t]. inversion Hall; subst. replace (fst x <=? fst y) with true by lia. reflexivity.
+Qed.
+End LoadResultsProofs.
